@@ -26,7 +26,7 @@ FN = {"b64enc": "base64_encode", "b64dec": "base64_decode", "b64decfmt": "base64
       "n2s": "num2str", "s2n": "str2num", "utf8": "utf8_decode", "asn": "asn_parse", "bt": "bt_en_decode",
       "xml": "xml_get_val_arr", "xmlns": "xml_get_val_ns_arr", "xmlcnt": "xml_calc_tag_count_args",
       "args": "buf2args", "lines": "buf_get_next_line", "sptab": "calc_sptab_count", "ini": "ini_buf_gen",
-      "iniset": "ini_val_set", "mem": "mem_search", "mfs": "mem_find_stream", "crc": "crc32"}
+      "iniset": "ini_val_set", "inigrow": "ini_store_growth", "ritems": "realloc_items", "mem": "mem_search", "mfs": "mem_find_stream", "crc": "crc32"}
 
 # (module, quick cfg, thorough cfg, actions that must all be taken)
 GENS = [
@@ -45,6 +45,7 @@ GENS = [
     ("BsMem", "BsMem.cfg", "BsMem_thorough.cfg", ["Grow", "Shift"]),
     ("BsMfs", "BsMfs.cfg", "BsMfs_thorough.cfg", ["AddPiece", "Cut1", "Cut2"]),
     ("BsRead", "BsRead.cfg", "BsRead_thorough.cfg", ["CrcGrow", "NumGrow", "WsGrow"]),
+    ("BsGrow", "BsGrow.cfg", "BsGrow_thorough.cfg", ["More", "SetAfter"]),
 ]
 
 
@@ -150,6 +151,16 @@ def render(c):
         if c["chunks"]:
             toks = " ".join([hexs(bytes(c["nd"]))] + [hexs(bytes(k)) for k in c["chunks"]])
             out.append(Case("mfs", toks, ("mfs",), c["shape"], True, ("mfs", toks)))
+    elif g == "grow":
+        src = bytes(c["in"]); sh = "%s/%d-items" % (c["shape"], c["n"])
+        if c["k"] in ("btlist", "btdict", "btnest"):
+            out.append(Case("bt", hexs(src), ("bt", len(src)), {"oob": sh, "span": sh, "term": sh}, True, ("bt", src)))
+        elif c["k"] == "ini":
+            out.append(Case("inigrow", "%s %d" % (hexs(src), c["x"]), ("inigrow", c["need"]), sh, True, ("inigrow", src, c["x"])))
+        else:
+            for isz in (1, 8, 16):
+                out.append(Case("ritems", "%d %d %d" % (isz, c["x"], c["n"]), ("ritems", c["n"], c["x"]), "block-%d/%d-items" % (c["x"], c["n"]),
+                                True, ("ritems", isz, c["x"], c["n"])))
     elif g == "read":
         src = bytes(c["in"])
         if c["k"] == "crc": out.append(Case("crc", hexs(src), ("safe",), "plain", len(src) > 0, ("crc", src)))
@@ -307,6 +318,15 @@ def compare(case, ans, place, fail):
         if rc != 0 or int(f["sets"]) != nops: fail("set-or-get-failed", "size", ans)
         elif int(f["need"]) != need: fail("calc-size-wrong", "size", "%s spec %d" % (ans, need))
         elif int(f["gen"]) != 0 or n != need: fail("exact-size-refused", "size", ans)
+        return True
+    if tag == "inigrow":
+        if rc != 0 or int(f["parse"]) != 0: fail("parse-or-set-failed", "size", ans)
+        elif int(f["need"]) != e[1]: fail("calc-size-wrong", "size", "%s spec %d" % (ans, e[1]))
+        elif int(f["gen"]) != 0 or n != e[1]: fail("exact-size-refused", "size", ans)
+        return True
+    if tag == "ritems":
+        # contract from the spec: room for more than `count`, at most one spare block
+        if rc != 0 or f["bad"] != "0" or not (e[1] - 1 < n <= e[1] - 1 + e[2]): fail("no-room-for-element-count", "size", ans)
         return True
     if tag == "mem":
         c = e[1]; nn = c["n"]; occ = set(c["occ"]) | {-1}; chrocc = set(c["chrocc"]) | {-1}
